@@ -63,6 +63,7 @@ type world struct {
 	spent  []sdkmath.Int
 	staked common.Address
 	dead   bool     // a monitor fired: the rest of this history is not meaningful
+	lastRet []byte  // return data of the last successful eth transaction
 	seq    []string // op lines of this history including the one being executed (replay of a violation)
 }
 
@@ -208,7 +209,26 @@ func (w *world) dump() string {
 		bal := app.BankKeeper.GetBalance(ctx, a, fxtypes.DefaultDenom).Amount
 		gs = append(gs, bal.Sub(w.bal0[i]).Add(w.spent[i]).String())
 	}
-	fmt.Fprintf(&sb, " A(%s) G(%s)", strings.Join(al, ","), strings.Join(gs, ","))
+	// unbonding-delegation and redelegation entries (number of entries per key; the refusal of a transfer depends on
+	// the incoming redelegations, the SDK's max-entries refusals on both)
+	var us, rds []string
+	for vi, v := range w.vals {
+		for d, a := range w.accs {
+			if u, err := app.StakingKeeper.GetUnbondingDelegation(ctx, a, v); err == nil && len(u.Entries) > 0 {
+				us = append(us, fmt.Sprintf("%d:%d:%d", d, vi, len(u.Entries)))
+			}
+		}
+	}
+	for si, src := range w.vals {
+		for di, dst := range w.vals {
+			for d, a := range w.accs {
+				if r, err := app.StakingKeeper.GetRedelegation(ctx, a, src, dst); err == nil && len(r.Entries) > 0 {
+					rds = append(rds, fmt.Sprintf("%d:%d:%d:%d", d, si, di, len(r.Entries)))
+				}
+			}
+		}
+	}
+	fmt.Fprintf(&sb, " A(%s) G(%s) U(%s) Rd(%s)", strings.Join(al, ","), strings.Join(gs, ","), strings.Join(us, ","), strings.Join(rds, ","))
 	return sb.String()
 }
 
@@ -223,6 +243,7 @@ func alKey(s string) string {
 // ethTx sends a signed eth transaction from the signer to the staking precompile; returns "" on success, else the
 // error text.  The whole call runs in a cache context that is only written when it did not panic (as runTx does).
 func (w *world) ethTx(from int, data []byte) (errText string) {
+	w.lastRet = nil
 	sg := w.sign[from]
 	cctx, write := w.s.Ctx.CacheContext()
 	res := hx.Try(func() error {
@@ -246,6 +267,7 @@ func (w *world) ethTx(from int, data []byte) (errText string) {
 			}
 			return fmt.Errorf("vm: %s", msg)
 		}
+		w.lastRet = common.CopyBytes(r.Ret)
 		return nil
 	})
 	if res == "ok" {
@@ -288,11 +310,15 @@ type snap struct {
 	shares   map[[2]int]sdkmath.LegacyDec // (delegator, validator)
 	valTok   []sdkmath.Int
 	valShare []sdkmath.LegacyDec
+	bals     []sdkmath.Int // liquid balance per account
 }
 
 func (w *world) snapshot() snap {
 	ctx := w.ctx()
 	sn := snap{digest: map[string]string{}, shares: map[[2]int]sdkmath.LegacyDec{}}
+	for _, a := range w.accs {
+		sn.bals = append(sn.bals, w.s.App.BankKeeper.GetBalance(ctx, a, fxtypes.DefaultDenom).Amount)
+	}
 	for _, name := range []string{stakingtypes.StoreKey, distrtypes.StoreKey, banktypes.StoreKey} {
 		d, _ := hx.DumpStore(ctx, w.s.App.GetKey(name))
 		sn.digest[name] = d
@@ -351,6 +377,10 @@ func (w *world) invariants(after string) {
 		w.violate(strings.TrimPrefix(res, "err:"))
 		return
 	}
+	w.refcounts(after)
+	if w.dead {
+		return
+	}
 	// Σ delegations = validator shares (all delegations in the store, not only the tracked accounts)
 	for i, v := range w.vals {
 		val, err := app.StakingKeeper.GetValidator(w.ctx(), v)
@@ -406,6 +436,7 @@ func (w *world) apply(line string) string {
 	before := w.snapshot()
 	kind := "ok"
 	class := f[0]
+	ret := ""
 	switch f[0] {
 	case "dump":
 	case "block":
@@ -438,6 +469,48 @@ func (w *world) apply(line string) string {
 		} else {
 			kind = kindOf(r, false)
 		}
+	case "rewards", "delegation":
+		// the two read-only methods, called through a real transaction of some user
+		a := ints(2)
+		caller := -1
+		for i := range w.accs {
+			if w.sign[i] != nil {
+				caller = i
+				break
+			}
+		}
+		var data []byte
+		var err error
+		if f[0] == "rewards" {
+			data, err = precompile.NewDelegationRewardsMethod(nil).PackInput(fxstakingtypes.DelegationRewardsArgs{
+				Validator: w.vals[a[1]].String(), Delegator: common.BytesToAddress(w.accs[a[0]])})
+		} else {
+			data, err = precompile.NewDelegationMethod(nil).PackInput(fxstakingtypes.DelegationArgs{
+				Validator: w.vals[a[1]].String(), Delegator: common.BytesToAddress(w.accs[a[0]])})
+		}
+		if err != nil {
+			panic(err)
+		}
+		kind = kindOf(w.ethTx(caller, data), false)
+		if kind == "ok" {
+			if f[0] == "rewards" {
+				if r, e := precompile.NewDelegationRewardsMethod(nil).UnpackOutput(w.lastRet); e == nil {
+					ret = " ret=" + r.String()
+				} else {
+					ret = " ret=undecodable"
+				}
+			} else if sh, amt, e := precompile.NewDelegationMethod(nil).UnpackOutput(w.lastRet); e == nil {
+				ret = fmt.Sprintf(" ret=%s:%s", sh, amt)
+			} else {
+				ret = " ret=undecodable"
+			}
+			after := w.snapshot()
+			for _, name := range []string{stakingtypes.StoreKey, distrtypes.StoreKey} {
+				if before.digest[name] != after.digest[name] {
+					w.violate(fmt.Sprintf("read-only method %s changed the %s store", f[0], name))
+				}
+			}
+		}
 	case "delegate", "undelegate":
 		a := ints(2)
 		amt := bigOf(f[3])
@@ -455,6 +528,7 @@ func (w *world) apply(line string) string {
 		if kind == "ok" && f[0] == "delegate" {
 			w.spent[a[0]] = w.spent[a[0]].Add(sdkmath.NewIntFromBigInt(amt))
 		}
+		w.checkFrame(f[0], before, kind, a[0], [][2]int{{a[0], a[1]}}, amt, a[1])
 	case "redelegate":
 		a := ints(3)
 		data, err := precompile.NewRedelegateV2Method(nil).PackInput(fxstakingtypes.RedelegateV2Args{
@@ -463,6 +537,7 @@ func (w *world) apply(line string) string {
 			panic(err)
 		}
 		kind = kindOf(w.ethTx(a[0], data), false)
+		w.checkFrame(f[0], before, kind, a[0], [][2]int{{a[0], a[1]}, {a[0], a[2]}}, nil, -1)
 	case "withdraw":
 		a := ints(2)
 		data, err := precompile.NewWithdrawMethod(nil).PackInput(fxstakingtypes.WithdrawArgs{Validator: w.vals[a[1]].String()})
@@ -470,6 +545,7 @@ func (w *world) apply(line string) string {
 			panic(err)
 		}
 		kind = kindOf(w.ethTx(a[0], data), false)
+		w.checkFrame(f[0], before, kind, a[0], nil, nil, -1)
 	case "approve":
 		a := ints(3)
 		data, err := precompile.NewApproveSharesMethod(nil).PackInput(fxstakingtypes.ApproveSharesArgs{
@@ -478,6 +554,12 @@ func (w *world) apply(line string) string {
 			panic(err)
 		}
 		kind = kindOf(w.ethTx(a[0], data), false)
+		w.checkFrame(f[0], before, kind, a[0], nil, nil, -1)
+		if kind == "ok" {
+			if got := app.StakingKeeper.GetAllowance(w.ctx(), w.vals[a[2]], w.accs[a[0]], w.accs[a[1]]); got.Cmp(bigOf(f[4])) != 0 {
+				w.violate(fmt.Sprintf("approveShares(%s) by account %d for spender %d left allowance %s", f[4], a[0], a[1], got))
+			}
+		}
 	case "transfer":
 		a := ints(3)
 		x := bigOf(f[4])
@@ -490,9 +572,15 @@ func (w *world) apply(line string) string {
 		}
 		erf, ert := w.expectedPayouts(from, to, v)
 		bf, bt := w.bal(from), w.bal(to)
+		third := w.thirdParties(from, to, v)
 		kind = kindOf(w.ethTx(from, data), true)
+		w.checkThird("transferShares", kind, from, to, v, third)
 		class = w.checkTransfer("transferShares", before, kind, from, to, v, x, recv)
 		w.checkPayouts("transferShares", kind, from, to, v, erf, ert, bf, bt)
+		w.checkFresh("transferShares", kind, from, to, v)
+		ret = w.retOf(kind, precompile.NewTransferSharesMethod(nil).TransferShare)
+		w.checkRet("transferShares", kind, from, to, v, x, before, bt)
+		w.transferStats(before, kind, from, to, v, x, erf)
 	case "transferFrom":
 		a := ints(4)
 		x := bigOf(f[5])
@@ -506,9 +594,15 @@ func (w *world) apply(line string) string {
 		}
 		erf, ert := w.expectedPayouts(from, to, v)
 		bf, bt := w.bal(from), w.bal(to)
+		third := w.thirdParties(from, to, v)
 		kind = kindOf(w.ethTx(sp, data), true)
+		w.checkThird("transferFromShares", kind, from, to, v, third)
 		class = w.checkTransfer("transferFromShares", before, kind, from, to, v, x, recv)
 		w.checkPayouts("transferFromShares", kind, from, to, v, erf, ert, bf, bt)
+		w.checkFresh("transferFromShares", kind, from, to, v)
+		ret = w.retOf(kind, precompile.NewTransferFromSharesMethod(nil).TransferShare)
+		w.checkRet("transferFromShares", kind, from, to, v, x, before, bt)
+		w.transferStats(before, kind, from, to, v, x, erf)
 		allow1 := app.StakingKeeper.GetAllowance(w.ctx(), w.vals[v], w.accs[from], w.accs[sp])
 		if kind == "ok" {
 			if allow0.Cmp(x) < 0 {
@@ -532,10 +626,294 @@ func (w *world) apply(line string) string {
 			w.violate(fmt.Sprintf("failed %s (%s) changed stores %v", f[0], kind, diff))
 		}
 	}
-	if !w.dead && f[0] != "dump" && f[0] != "block" {
+	if !w.dead && f[0] != "dump" && f[0] != "block" && f[0] != "rewards" && f[0] != "delegation" {
 		w.invariants(f[0])
 	}
-	return kind + " | " + w.dump()
+	return kind + " | " + w.dump() + ret
+}
+
+// thirdParties: the rewards the SDK computes right now (period ended on a branch of the state) for every delegator of
+// validator v other than the two parties of a transfer, as raw 18-decimal strings ("!…" = the calculation fails).
+func (w *world) thirdParties(from, to, v int) map[int]string {
+	res := map[int]string{}
+	for d := range w.accs {
+		if d == from || d == to {
+			continue
+		}
+		cctx, _ := w.ctx().CacheContext()
+		app := w.s.App
+		del, err := app.StakingKeeper.Delegation(cctx, w.accs[d], w.vals[v])
+		if err != nil {
+			continue
+		}
+		out := ""
+		r := hx.Try(func() error {
+			val, err := app.StakingKeeper.Validator(cctx, w.vals[v])
+			if err != nil {
+				return err
+			}
+			ending, err := app.DistrKeeper.IncrementValidatorPeriod(cctx, val)
+			if err != nil {
+				return err
+			}
+			rw, err := app.DistrKeeper.CalculateDelegationRewards(cctx, val, del, ending)
+			if err != nil {
+				return err
+			}
+			out = decCoinsRaw(rw)
+			return nil
+		})
+		if r != "ok" {
+			out = "!" + r
+		}
+		res[d] = out
+	}
+	return res
+}
+
+// checkThird: a transfer leaves every third party's reward entitlement exactly as it was.
+func (w *world) checkThird(name, kind string, from, to, v int, before map[int]string) {
+	if kind != "ok" || w.dead {
+		return
+	}
+	after := w.thirdParties(from, to, v)
+	for d, b := range before {
+		if a := after[d]; a != b {
+			w.violate(fmt.Sprintf("%s between accounts %d and %d changed the pending rewards of third party %d at validator %d: %s -> %s (raw 18-decimal)",
+				name, from, to, d, v, b, a))
+			return
+		}
+	}
+	w.out.Count(fmt.Sprintf("transfer-ok:third-parties=%d", len(before)))
+}
+
+// checkFrame: a successful delegate / undelegate / redelegate / withdraw / approve sent by `caller` acts for the caller
+// only: no delegation other than the allowed (delegator, validator) pairs changes, nobody else's liquid balance
+// changes, and a delegation adds exactly the delegated amount to the validator's tokens.
+func (w *world) checkFrame(op string, before snap, kind string, caller int, allowed [][2]int, amt *big.Int, v int) {
+	if kind != "ok" || w.dead {
+		return
+	}
+	after := w.snapshot()
+	ok := func(d, vi int) bool {
+		for _, p := range allowed {
+			if p[0] == d && p[1] == vi {
+				return true
+			}
+		}
+		return false
+	}
+	for vi := range w.vals {
+		for d := range w.accs {
+			if !ok(d, vi) && !before.sh(d, vi).Equal(after.sh(d, vi)) {
+				w.violate(fmt.Sprintf("%s sent by account %d changed the delegation of account %d at validator %d: %s -> %s (a staking operation through the precompile acts for its caller only)",
+					op, caller, d, vi, before.sh(d, vi), after.sh(d, vi)))
+				return
+			}
+		}
+	}
+	for d := range w.accs {
+		if d != caller && !before.bals[d].Equal(after.bals[d]) {
+			w.violate(fmt.Sprintf("%s sent by account %d changed the balance of account %d: %s -> %s", op, caller, d, before.bals[d], after.bals[d]))
+			return
+		}
+	}
+	if op == "delegate" && amt != nil && v >= 0 {
+		if !after.valTok[v].Sub(before.valTok[v]).Equal(sdkmath.NewIntFromBigInt(amt)) {
+			w.violate(fmt.Sprintf("delegate of %s changed validator %d tokens %s -> %s", amt, v, before.valTok[v], after.valTok[v]))
+		}
+	}
+}
+
+// retOf: the values a successful transferShares / transferFromShares call returns (token worth of the moved shares,
+// reward coins paid to the recipient), compared with the model.
+func (w *world) retOf(kind string, m *precompile.TransferShare) string {
+	if kind != "ok" {
+		return ""
+	}
+	token, reward, err := m.UnpackOutput(w.lastRet)
+	if err != nil {
+		return " ret=undecodable"
+	}
+	return fmt.Sprintf(" ret=%s:%s", token, reward)
+}
+
+// checkRet: the call reports the token worth of the moved shares at the validator's exchange rate and exactly the
+// reward coins the recipient was paid.
+func (w *world) checkRet(name, kind string, from, to, v int, x *big.Int, before snap, bt sdkmath.Int) {
+	if kind != "ok" || w.dead {
+		return
+	}
+	token, reward, err := precompile.NewTransferSharesMethod(nil).UnpackOutput(w.lastRet)
+	if err != nil {
+		w.violate(name + " returned undecodable data")
+		return
+	}
+	val, err := w.s.App.StakingKeeper.GetValidator(w.ctx(), w.vals[v])
+	if err != nil {
+		return
+	}
+	if want := val.TokensFromShares(sdkmath.LegacyNewDecFromBigInt(x)).TruncateInt().BigInt(); token.Cmp(want) != 0 {
+		w.violate(fmt.Sprintf("%s of %s shares reported token worth %s, TokensFromShares(shares) = %s", name, x, token, want))
+		return
+	}
+	paid := big.NewInt(0)
+	if from != to {
+		paid = w.bal(to).Sub(bt).BigInt()
+	}
+	if reward.Cmp(paid) != 0 {
+		w.violate(fmt.Sprintf("%s reported %s reward coins for the recipient, who was paid %s", name, reward, paid))
+	}
+}
+
+// transferStats records the measured distribution of the transfer inputs.
+func (w *world) transferStats(before snap, kind string, from, to, v int, x *big.Int, erf *big.Int) {
+	if kind != "ok" || from == to {
+		return
+	}
+	ctx := w.ctx()
+	slashed := false
+	w.s.App.DistrKeeper.IterateValidatorSlashEvents(ctx, func(val sdk.ValAddress, _ uint64, _ distrtypes.ValidatorSlashEvent) bool {
+		if bytes.Equal(val, w.vals[v]) {
+			slashed = true
+			return true
+		}
+		return false
+	})
+	if slashed {
+		w.out.Count("transfer-ok:validator-slashed-before")
+	}
+	if !before.sh(from, v).Equal(before.sh(from, v).TruncateDec()) {
+		w.out.Count("transfer-ok:sender-fractional-shares")
+	}
+	if !before.sh(to, v).IsZero() && !before.sh(to, v).Equal(before.sh(to, v).TruncateDec()) {
+		w.out.Count("transfer-ok:recipient-fractional-shares")
+	}
+	if erf != nil && erf.Sign() > 0 {
+		w.out.Count("transfer-ok:sender-rewards-paid")
+	}
+	if !before.valShare[v].Equal(sdkmath.LegacyNewDecFromInt(before.valTok[v])) {
+		w.out.Count("transfer-ok:exchange-rate-not-1")
+	}
+}
+
+// checkFresh: after a successful transfer between different accounts each party's starting info is exactly the one
+// the SDK's own initializeDelegation would write for its new shares now (stake re-derived from the shares at the
+// validator's exchange rate, current height, a period whose cumulative ratio equals that of the period just ended),
+// the validator's current rewards are zero, and a party without a delegation has no starting info.
+func (w *world) checkFresh(name, kind string, from, to, v int) {
+	if kind != "ok" || from == to || w.dead {
+		return
+	}
+	ctx := w.ctx()
+	app := w.s.App
+	val, err := app.StakingKeeper.GetValidator(ctx, w.vals[v])
+	if err != nil {
+		return
+	}
+	cur, _ := app.DistrKeeper.GetValidatorCurrentRewards(ctx, w.vals[v])
+	if !cur.Rewards.IsZero() {
+		w.violate(fmt.Sprintf("%s left validator current rewards %s (the period was not ended)", name, cur.Rewards))
+		return
+	}
+	last, _ := app.DistrKeeper.GetValidatorHistoricalRewards(ctx, w.vals[v], cur.Period-1)
+	for _, d := range []int{from, to} {
+		who := "sender"
+		if d == to {
+			who = "recipient"
+		}
+		has, _ := app.DistrKeeper.HasDelegatorStartingInfo(ctx, w.vals[v], w.accs[d])
+		del, err := app.StakingKeeper.GetDelegation(ctx, w.accs[d], w.vals[v])
+		if err != nil {
+			if has {
+				w.violate(fmt.Sprintf("%s left a starting info for the %s who has no delegation any more", name, who))
+				return
+			}
+			continue
+		}
+		if !has {
+			w.violate(fmt.Sprintf("%s left the %s's delegation without a starting info", name, who))
+			return
+		}
+		si, _ := app.DistrKeeper.GetDelegatorStartingInfo(ctx, w.vals[v], w.accs[d])
+		want := val.TokensFromSharesTruncated(del.Shares)
+		if !si.Stake.Equal(want) {
+			w.violate(fmt.Sprintf("%s left the %s with starting stake %s, TokensFromSharesTruncated(its shares %s) = %s (reward entitlement not re-derived from the shares)",
+				name, who, si.Stake, del.Shares, want))
+			return
+		}
+		if si.Height != uint64(ctx.BlockHeight()) {
+			w.violate(fmt.Sprintf("%s left the %s with starting height %d at block %d", name, who, si.Height, ctx.BlockHeight()))
+			return
+		}
+		rec, _ := app.DistrKeeper.GetValidatorHistoricalRewards(ctx, w.vals[v], si.PreviousPeriod)
+		if rec.ReferenceCount == 0 || !decCoinsRawEq(rec.CumulativeRewardRatio, last.CumulativeRewardRatio) {
+			w.violate(fmt.Sprintf("%s left the %s starting at period %d (refs %d, ratio %s) while the period just ended is %d (ratio %s)",
+				name, who, si.PreviousPeriod, rec.ReferenceCount, decCoinsRaw(rec.CumulativeRewardRatio), cur.Period-1, decCoinsRaw(last.CumulativeRewardRatio)))
+			return
+		}
+	}
+}
+
+func decCoinsRawEq(a, b sdk.DecCoins) bool { return decCoinsRaw(a) == decCoinsRaw(b) }
+
+// refcounts: per validator and period, the reference count of the historical record = starting infos pointing at it
+// + 1 for the period before the current one + slash events recorded for it (the per-period form of the SDK's
+// ReferenceCountInvariant); a delegation exists exactly when a starting info exists.
+func (w *world) refcounts(after string) {
+	ctx := w.ctx()
+	app := w.s.App
+	type key struct {
+		v int
+		p uint64
+	}
+	want := map[key]uint32{}
+	for i, v := range w.vals {
+		if cur, err := app.DistrKeeper.GetValidatorCurrentRewards(ctx, v); err == nil && cur.Period > 0 {
+			want[key{i, cur.Period - 1}]++
+		}
+	}
+	bad := ""
+	app.DistrKeeper.IterateDelegatorStartingInfos(ctx, func(val sdk.ValAddress, del sdk.AccAddress, info distrtypes.DelegatorStartingInfo) bool {
+		want[key{w.valIdx(val), info.PreviousPeriod}]++
+		if _, err := app.StakingKeeper.GetDelegation(ctx, del, val); err != nil && bad == "" {
+			bad = fmt.Sprintf("starting info of account %d at validator %d without a delegation", w.accIdx(del), w.valIdx(val))
+		}
+		return false
+	})
+	app.DistrKeeper.IterateValidatorSlashEvents(ctx, func(val sdk.ValAddress, _ uint64, ev distrtypes.ValidatorSlashEvent) bool {
+		want[key{w.valIdx(val), ev.ValidatorPeriod}]++
+		return false
+	})
+	got := map[key]uint32{}
+	app.DistrKeeper.IterateValidatorHistoricalRewards(ctx, func(val sdk.ValAddress, period uint64, rw distrtypes.ValidatorHistoricalRewards) bool {
+		got[key{w.valIdx(val), period}] = rw.ReferenceCount
+		return false
+	})
+	for k, n := range want {
+		if got[k] != n && bad == "" {
+			bad = fmt.Sprintf("historical record of validator %d period %d has reference count %d, referenced by %d (starting infos + current period + slash events)", k.v, k.p, got[k], n)
+		}
+	}
+	for k, n := range got {
+		if want[k] != n && bad == "" {
+			bad = fmt.Sprintf("historical record of validator %d period %d has reference count %d, referenced by %d (starting infos + current period + slash events)", k.v, k.p, n, want[k])
+		}
+	}
+	if bad == "" {
+		for _, v := range w.vals {
+			dels, _ := app.StakingKeeper.GetValidatorDelegations(ctx, v)
+			for _, d := range dels {
+				da, _ := sdk.AccAddressFromBech32(d.DelegatorAddress)
+				if has, _ := app.DistrKeeper.HasDelegatorStartingInfo(ctx, v, da); !has {
+					bad = fmt.Sprintf("delegation of account %d at validator %d without a starting info", w.accIdx(da), w.valIdx(v))
+				}
+			}
+		}
+	}
+	if bad != "" {
+		w.violate("reference counts inconsistent after " + after + ": " + bad)
+	}
 }
 
 // checkTransfer evaluates the transfer clauses of the property on the real state; returns the input class.
@@ -775,6 +1153,9 @@ func (g *gen) pickTo(from int) int {
 	if g.rng.Intn(6) == 0 {
 		return from // self
 	}
+	if g.rng.Intn(10) == 0 {
+		return g.rng.Intn(len(g.w.accs)) // any account, validator operators (holders of a self-delegation) included
+	}
 	return hx.Pick(g.rng, us)
 }
 
@@ -818,18 +1199,38 @@ func (g *gen) next() string {
 			a := hx.Pick(r, als)
 			allow := w.s.App.StakingKeeper.GetAllowance(w.ctx(), w.vals[a.v], w.accs[a.o], w.accs[a.s])
 			amt := g.transferAmount(a.o, a.v)
-			switch r.Intn(4) {
+			whole := g.sharesOf(a.o, a.v).TruncateInt().BigInt()
+			lim := allow
+			if whole.Cmp(lim) < 0 {
+				lim = whole
+			}
+			switch r.Intn(6) {
 			case 0:
 				amt = allow
 			case 1:
 				amt = new(big.Int).Add(allow, big.NewInt(1))
+			case 2, 3:
+				amt = lim // as much as both the allowance and the delegation permit
+			case 4:
+				if lim.Sign() > 0 {
+					amt = new(big.Int).Add(new(big.Int).Rand(r, lim), big.NewInt(1))
+				}
 			}
 			return fmt.Sprintf("transferFrom %d %d %d %d %s", a.s, a.o, g.pickTo(a.o), a.v, amt)
 		}
 		from := hx.Pick(r, us)
 		return fmt.Sprintf("transferFrom %d %d %d %d %s", hx.Pick(r, us), from, g.pickTo(from), v, g.transferAmount(from, v))
-	case roll < 86:
+	case roll < 83:
 		return fmt.Sprintf("withdraw %d %d", hx.Pick(r, us), v)
+	case roll < 86:
+		// read-only queries of anybody's position (operators included)
+		if r.Intn(3) == 0 {
+			return fmt.Sprintf("delegation %d %d", r.Intn(len(w.accs)), v)
+		}
+		if len(hs) > 0 && r.Intn(2) == 0 {
+			return fmt.Sprintf("rewards %d %d", hx.Pick(r, hs), v)
+		}
+		return fmt.Sprintf("rewards %d %d", r.Intn(len(w.accs)), v)
 	case roll < 91 && len(hs) > 0:
 		d := hx.Pick(r, hs)
 		val, _ := w.s.App.StakingKeeper.GetValidator(w.ctx(), w.vals[v])
@@ -870,7 +1271,9 @@ func (g *gen) next() string {
 		if r.Intn(3) == 0 && power > 1 {
 			power = 1 + r.Int63n(power)
 		}
-		factors := []string{"10000000000000000", "50000000000000000", "333333333333333333", "500000000000000000", "1", "123456789012345678"}
+		// smallest factor 10^-6: a fraction at the 10^-18 precision limit makes the SDK's own stake sanity check fail
+		// without any share transfer (fixes/C11-sdk-stake-sanity.md, Props.C11.stake_sanity_reachable)
+		factors := []string{"10000000000000000", "50000000000000000", "333333333333333333", "500000000000000000", "1000000000000", "123456789012345678"}
 		return fmt.Sprintf("slash %d %d %s", v, power, hx.Pick(r, factors))
 	default:
 		// a holder-less account tries to move shares / unknown holder
@@ -1000,7 +1403,7 @@ func TestC11(t *testing.T) {
 		runSeq(nVal, nUsers, ls, 0)
 	}
 
-	nSeq := hx.N(36, 400)
+	nSeq := hx.N(50, 400)
 	for i := 0; i < nSeq; i++ {
 		nVal := 1 + rng.Intn(3)
 		nUsers := 2 + rng.Intn(3)
